@@ -118,10 +118,13 @@ Proof.
   split; [apply noaux_distinct; exact F|apply noaux_erase; exact F].
 Qed.
 
+Lemma catch_params_only_hcore p : catch_params_only p = true -> hcore_x true p = true.
+Proof. induction p; cbn; intros H; try discriminate; [reflexivity|]. destruct d; try discriminate. apply IHp. exact H. Qed.
+
 (* the smaller fragment is part of the larger one *)
 Lemma core_d_core_x p : (core_d p = true -> core_x p = true) /\ (pcore_d p = true -> pcore_x p = true).
 Proof.
-  induction p; (split; [cbn [core_d core_x]|cbn [pcore_d pcore_x]]); intros H; try discriminate; try reflexivity.
+  induction p; (split; [cbn [core_d core_x]|cbn [pcore_d hcore_x]]); intros H; try discriminate; try reflexivity.
   - apply (proj1 IHp). exact H.
   - andbs. rewrite (proj2 IHp) by assumption. rewrite andb_true_r. assumption.
   - andbs. rewrite (proj1 IHp) by assumption. rewrite andb_true_r. assumption.
@@ -134,7 +137,7 @@ Proof.
   - andbs. rewrite (proj2 IHp1), (proj1 IHp2), (proj1 IHp3) by assumption. reflexivity.
   - andbs. rewrite (proj2 IHp1), (proj1 IHp2), (proj2 IHp3) by assumption.
     repeat match goal with H : ?b = true |- context [?b] => rewrite H end. reflexivity.
-  - andbs. rewrite (proj1 IHp2), (proj1 IHp3) by assumption.
+  - andbs. rewrite (catch_params_only_hcore p1), (proj1 IHp2), (proj1 IHp3) by assumption.
     repeat match goal with H : ?b = true |- context [?b] => rewrite H end. reflexivity.
   - destruct nm; [discriminate|]. andbs. rewrite (proj1 IHp1), (proj1 IHp2) by assumption.
     repeat match goal with H : ?b = true |- context [?b] => rewrite H end. reflexivity.
